@@ -8,12 +8,12 @@ import PestTyped.Lemmas.Sim
 set_option linter.unusedSimpArgs false
 namespace PestTyped
 
-theorem Ev.leaf1 {α} {T : Nat → R α} {rs : SR} (h : ∀ k, T (k+1) = T 1) (hr : Rel (T 1) rs) : Ev T rs :=
+theorem EvRel.leaf1 {α} {T : Nat → R α} {rs : SR} (h : ∀ k, T (k+1) = T 1) (hr : Rel (T 1) rs) : EvRel T rs :=
   ⟨1, T 1, hr, fun n hn => by
     obtain ⟨k, rfl⟩ : ∃ k, n = k + 1 := ⟨n - 1, by omega⟩
     exact h k⟩
 
-theorem Ev.leaf2 {α} {T : Nat → R α} {rs : SR} (h : ∀ k, T (k+2) = T 2) (hr : Rel (T 2) rs) : Ev T rs :=
+theorem EvRel.leaf2 {α} {T : Nat → R α} {rs : SR} (h : ∀ k, T (k+2) = T 2) (hr : Rel (T 2) rs) : EvRel T rs :=
   ⟨2, T 2, hr, fun n hn => by
     obtain ⟨k, rfl⟩ : ∃ k, n = k + 2 := ⟨n - 2, by omega⟩
     exact h k⟩
@@ -68,11 +68,11 @@ def classSR (p : Char → Bool) (i : Inp) (S : List Sp) : SR :=
 /-- `nd` matches exactly one character of class `p` and leaves the stack alone. -/
 def IsClass (nd : Node) (p : Char → Bool) : Prop :=
   ∀ (G : NodeGrammar) (uni : Uni) (inh : Bool) (i : Inp) (m : M),
-    Ev (fun n' => parse G uni n' inh nd i m) (classSR p i m.stk)
+    EvRel (fun n' => parse G uni n' inh nd i m) (classSR p i m.stk)
 
 theorem isClass_range (lo hi : Char) : IsClass (.range lo hi) (fun c => lo ≤ c ∧ c ≤ hi) := by
   intro G uni inh i m
-  refine Ev.leaf1 (fun k => by simp only [parse]) ?_
+  refine EvRel.leaf1 (fun k => by simp only [parse]) ?_
   simp only [parse, classSR, Inp.matchRange]
   cases i.matchCharBy (fun c => decide (lo ≤ c ∧ c ≤ hi)) with
   | none => exact ⟨m, rfl⟩
@@ -80,13 +80,13 @@ theorem isClass_range (lo hi : Char) : IsClass (.range lo hi) (fun c => lo ≤ c
 
 theorem choiceLoop_class : ∀ (alts : List Node) (ps : List (Char → Bool)), All2 IsClass alts ps →
     ∀ (G : NodeGrammar) (uni : Uni) (inh : Bool) (k : Nat) (i : Inp) (m : M),
-      Ev (fun n' => choiceLoop (parse G uni n' inh) alts k i m) (classSR (fun c => ps.any (fun p => p c)) i m.stk) := by
+      EvRel (fun n' => choiceLoop (parse G uni n' inh) alts k i m) (classSR (fun c => ps.any (fun p => p c)) i m.stk) := by
   intro alts ps h
   induction h with
   | nil =>
     intro G uni inh k i m
     simp only [List.any_nil, classSR, matchCharBy_false]
-    exact Ev.mk_fail 0 m (fun n _ => by simp only [choiceLoop])
+    exact EvRel.mk_fail 0 m (fun n _ => by simp only [choiceLoop])
   | @cons a p as ps ha _ ih =>
     intro G uni inh k i m
     have h1 := ha G uni inh i m
@@ -97,7 +97,7 @@ theorem choiceLoop_class : ∀ (alts : List Node) (ps : List (Char → Bool)), A
       simp only [classSR, hm] at h1
       obtain ⟨n1, t1, v1, hc1⟩ := h1.ok rfl
       simp only [classSR, matchCharBy_or_left hm]
-      refine Ev.mk_ok' n1 i' ⟨m.stk, t1⟩ (k, v1) rfl (fun n hn => ?_)
+      refine EvRel.mk_ok' n1 i' ⟨m.stk, t1⟩ (k, v1) rfl (fun n hn => ?_)
       simp only [choiceLoop]
       rw [hc1 n hn]
       simp only [restoreOnNone]
@@ -125,14 +125,14 @@ theorem isClass_choice (alts : List Node) (ps : List (Char → Bool)) (h : All2 
     simp only [classSR, hm] at hr1 ⊢
     obtain ⟨m1, v1, rfl, hs⟩ := hr1
     obtain ⟨k1, w1⟩ := v1
-    refine Ev.mk_ok' (n1 + 1) i' m1 (.mk (.choice alts.length k1) [w1]) hs (fun n hn => ?_)
+    refine EvRel.mk_ok' (n1 + 1) i' m1 (.mk (.choice alts.length k1) [w1]) hs (fun n hn => ?_)
     obtain ⟨k, rfl⟩ : ∃ k, n = k + 1 := ⟨n - 1, by omega⟩
     simp only [parse]
     rw [hc1 k (by omega)]
   | none =>
     simp only [classSR, hm] at hr1 ⊢
     obtain ⟨m1, rfl⟩ := hr1
-    refine Ev.mk_fail (n1 + 1) m1 (fun n hn => ?_)
+    refine EvRel.mk_fail (n1 + 1) m1 (fun n hn => ?_)
     obtain ⟨k, rfl⟩ : ∃ k, n = k + 1 := ⟨n - 1, by omega⟩
     simp only [parse]
     rw [hc1 k (by omega)]
@@ -144,13 +144,13 @@ theorem IsClass.congr {nd : Node} {p q : Char → Bool} (h : IsClass nd p) (hpq 
 
 theorem IsClass.ev {nd : Node} {p : Char → Bool} (h : IsClass nd p) (G : NodeGrammar) (uni : Uni) (inh : Bool)
     (i : Inp) (S : List Sp) (trk : Tracker) :
-    Ev (fun n' => parse G uni n' inh nd i ⟨S, trk⟩)
+    EvRel (fun n' => parse G uni n' inh nd i ⟨S, trk⟩)
       (match i.matchCharBy p with | some (i', _) => .ok i' S | none => .fail) :=
   h G uni inh i ⟨S, trk⟩
 
 theorem isClass_any : IsClass .any (fun _ => true) := by
   intro G uni inh i m
-  refine Ev.leaf1 (fun k => by simp only [parse]) ?_
+  refine EvRel.leaf1 (fun k => by simp only [parse]) ?_
   simp only [parse, classSR]
   cases i.matchCharBy (fun _ => true) with
   | none => exact ⟨m, rfl⟩
@@ -158,9 +158,9 @@ theorem isClass_any : IsClass .any (fun _ => true) := by
 
 theorem isClass_charBy (uni0 : Uni) (name : String) :
     ∀ (G : NodeGrammar) (inh : Bool) (i : Inp) (m : M),
-      Ev (fun n' => parse G uni0 n' inh (.charBy name) i m) (classSR (uni0 name) i m.stk) := by
+      EvRel (fun n' => parse G uni0 n' inh (.charBy name) i m) (classSR (uni0 name) i m.stk) := by
   intro G inh i m
-  refine Ev.leaf1 (fun k => by simp only [parse]) ?_
+  refine EvRel.leaf1 (fun k => by simp only [parse]) ?_
   simp only [parse, classSR]
   cases i.matchCharBy (uni0 name) with
   | none => exact ⟨m, rfl⟩
@@ -177,7 +177,7 @@ theorem char_zero_le (c : Char) : Char.ofNat 0 ≤ c := by
 /-- Built-in aliases denote the Spec's built-ins. -/
 theorem builtin_sim (g : PGrammar) (uni : Uni) (name : String) (inh : Bool) (i : Inp) (S : List Sp)
     (trk : Tracker) :
-    Ev (fun n' => parse (gen g) uni n' inh (builtinNode name) i ⟨S, trk⟩) (specBuiltin uni name i S) := by
+    EvRel (fun n' => parse (gen g) uni n' inh (builtinNode name) i ⟨S, trk⟩) (specBuiltin uni name i S) := by
   have hR := fun lo hi => isClass_range lo hi
   by_cases hmem : name ∈ ["ANY", "SOI", "EOI", "PEEK", "PEEK_ALL", "POP", "POP_ALL", "DROP", "ASCII_DIGIT",
       "ASCII_NONZERO_DIGIT", "ASCII_BIN_DIGIT", "ASCII_OCT_DIGIT", "ASCII_HEX_DIGIT", "ASCII_ALPHA_LOWER",
@@ -190,21 +190,21 @@ theorem builtin_sim (g : PGrammar) (uni : Uni) (name : String) (inh : Bool) (i :
       exact isClass_any.ev _ _ _ _ _ _
     · -- SOI
       simp only [builtinNode, specBuiltin, String.reduceEq, ↓reduceIte, or_self, or_false, false_or]
-      refine Ev.leaf1 (fun k => by simp only [parse]) ?_
+      refine EvRel.leaf1 (fun k => by simp only [parse]) ?_
       simp only [parse]
       by_cases h : i.atStart = true
       · simp only [h, if_true]; exact ⟨_, _, rfl, rfl⟩
       · simp only [h]; exact ⟨_, rfl⟩
     · -- EOI
       simp only [builtinNode, specBuiltin, String.reduceEq, ↓reduceIte, or_self, or_false, false_or]
-      refine Ev.leaf2 (fun k => by simp only [parse, gen_rule_zero, eoiDef]) ?_
+      refine EvRel.leaf2 (fun k => by simp only [parse, gen_rule_zero, eoiDef]) ?_
       simp only [parse, gen_rule_zero, eoiDef]
       by_cases h : i.atEnd = true
       · simp only [h, if_true]; exact ⟨_, _, rfl, rfl⟩
       · simp only [h]; exact ⟨_, rfl⟩
     · -- PEEK
       simp only [builtinNode, specBuiltin, String.reduceEq, ↓reduceIte, or_self, or_false, false_or]
-      refine Ev.leaf1 (fun k => by simp only [parse]) ?_
+      refine EvRel.leaf1 (fun k => by simp only [parse]) ?_
       simp only [parse]
       cases S with
       | nil => exact ⟨_, rfl⟩
@@ -215,14 +215,14 @@ theorem builtin_sim (g : PGrammar) (uni : Uni) (name : String) (inh : Bool) (i :
         | some i' => exact ⟨_, _, rfl, rfl⟩
     · -- PEEK_ALL
       simp only [builtinNode, specBuiltin, String.reduceEq, ↓reduceIte, or_self, or_false, false_or]
-      refine Ev.leaf1 (fun k => by simp only [parse]) ?_
+      refine EvRel.leaf1 (fun k => by simp only [parse]) ?_
       simp only [parse]
       cases peekSpans S i with
       | none => exact ⟨_, rfl⟩
       | some i' => exact ⟨_, _, rfl, rfl⟩
     · -- POP
       simp only [builtinNode, specBuiltin, String.reduceEq, ↓reduceIte, or_self, or_false, false_or]
-      refine Ev.leaf1 (fun k => by simp only [parse]) ?_
+      refine EvRel.leaf1 (fun k => by simp only [parse]) ?_
       simp only [parse]
       cases S with
       | nil => exact ⟨_, rfl⟩
@@ -233,14 +233,14 @@ theorem builtin_sim (g : PGrammar) (uni : Uni) (name : String) (inh : Bool) (i :
         | some i' => exact ⟨_, _, rfl, rfl⟩
     · -- POP_ALL
       simp only [builtinNode, specBuiltin, String.reduceEq, ↓reduceIte, or_self, or_false, false_or]
-      refine Ev.leaf1 (fun k => by simp only [parse]) ?_
+      refine EvRel.leaf1 (fun k => by simp only [parse]) ?_
       simp only [parse]
       cases peekSpans S i with
       | none => exact ⟨_, rfl⟩
       | some i' => exact ⟨_, _, rfl, rfl⟩
     · -- DROP
       simp only [builtinNode, specBuiltin, String.reduceEq, ↓reduceIte, or_self, or_false, false_or]
-      refine Ev.leaf1 (fun k => by simp only [parse]) ?_
+      refine EvRel.leaf1 (fun k => by simp only [parse]) ?_
       simp only [parse]
       cases S with
       | nil => exact ⟨_, rfl⟩
@@ -289,17 +289,17 @@ theorem builtin_sim (g : PGrammar) (uni : Uni) (name : String) (inh : Bool) (i :
         (fun c => by simp [char_zero_le])).ev _ _ _ _ _ _
     · -- NEWLINE
       simp only [builtinNode, specBuiltin, String.reduceEq, ↓reduceIte, or_self, or_false, false_or]
-      refine Ev.leaf1 (fun k => by simp only [parse]) ?_
+      refine EvRel.leaf1 (fun k => by simp only [parse]) ?_
       simp only [parse]
       cases newlineMatch i with
       | none => exact ⟨_, rfl⟩
       | some p => exact ⟨_, _, rfl, rfl⟩
     · -- WHITESPACE
       simp only [builtinNode, specBuiltin, String.reduceEq, ↓reduceIte, or_self, or_false, false_or]
-      exact Ev.leaf1 (fun k => by simp only [parse]) (by simp only [parse]; exact ⟨_, rfl⟩)
+      exact EvRel.leaf1 (fun k => by simp only [parse]) (by simp only [parse]; exact ⟨_, rfl⟩)
     · -- COMMENT
       simp only [builtinNode, specBuiltin, String.reduceEq, ↓reduceIte, or_self, or_false, false_or]
-      exact Ev.leaf1 (fun k => by simp only [parse]) (by simp only [parse]; exact ⟨_, rfl⟩)
+      exact EvRel.leaf1 (fun k => by simp only [parse]) (by simp only [parse]; exact ⟨_, rfl⟩)
   · simp only [List.mem_cons, List.not_mem_nil, or_false, not_or] at hmem
     obtain ⟨h1, h2, h3, h4, h5, h6, h7, h8, h9, h10, h11, h12, h13, h14, h15, h16, h17, h18, h19, h20, h21⟩ := hmem
     simp only [builtinNode, specBuiltin, asciiClass, h1, h2, h3, h4, h5, h6, h7, h8, h9, h10, h11, h12, h13, h14,
